@@ -1,157 +1,219 @@
 #!/usr/bin/env python3
 """check.py <property> [--tier quick|thorough] [--replay FILE]
 
-Protocol (per property):
-  1. bootstrap (idempotent, under a lock): python deps into ROOT/.deps, `lake build` of library + driver;
-  2. proof side: build the property's theorem modules, audit `#print axioms` of every registered theorem
-     (obligation discharged = present in the build, no `sorry`, axioms within the allowed set);
+Protocol (per property, DESIGN.md section 2.3):
+  1. bootstrap (idempotent, under a file lock): python deps into /verif/.deps, regenerate
+     lean/Apimodel/Generated/*.lean from /repo's working tree (translator), `lake build` of library + driver;
+  2. proof side: the property's theorem modules are part of the build; `#print axioms` of every registered
+     theorem is audited (obligation discharged = present in the build, sources free of sorry / native_decide /
+     axiom, axioms within {propext, Classical.choice, Quot.sound});
   3. tie: correspondence K (model = real code on generated cases) and property check P on the real code;
-  4. verdict: a K/P failure is a VIOLATION with the failing case as replay unless it is a *known finding*
+  4. verdict: a P failure is a VIOLATION with the failing case as replay unless it is a *known finding*
      (the finding's predicate holds on the case AND the real code still matches the model there);
-     a broken proof obligation triggers a deeper failing-input search (10x budget); if nothing is found
-     the VIOLATION line ends with `no-failing-input-found` and the replay names the obligation;
+     a broken proof obligation or a broken correspondence triggers a deeper failing-input search; if nothing
+     is found the VIOLATION line ends with `no-failing-input-found` and the replay names what no longer checks;
   5. evidence/<id>.json is rewritten and validated against EVIDENCE.schema.json.
 Exit codes: 0 held, 1 violation, 2 infrastructure problem / timeout (never a verdict)."""
-import sys, os, json, time, subprocess, fcntl, re, importlib, argparse, random, collections
+import sys, os, json, time, subprocess, fcntl, re, importlib, argparse, collections, hashlib, signal, traceback
 
 ROOT = os.path.dirname(os.path.dirname(os.path.abspath(__file__)))
-LEAN = ROOT                                   # lake project root (ROOT/lean in the final layout)
+LEAN = os.path.join(ROOT, "lean")
 REPO = os.environ.get("VERIF_REPO", "/repo")
 DEPS = os.path.join(ROOT, ".deps")
 ALLOWED_AXIOMS = {"propext", "Classical.choice", "Quot.sound"}
 SCHEMA = "/root/.vp/EVIDENCE.schema.json"
+PY = "/venv/bin/python"
 
-# property -> theorem modules and the theorems that constitute its proof obligations
-REGISTRY = {
-    "C16": {
-        "modules": ["Apimodel.OrderThm"],
-        "theorems": ["Api.sortByOrder_nodup", "Api.sortByOrder_sub", "Api.sortByOrder_perm",
-                     "Api.C16_loses_counterexample"],
-        "engine": "engine_order",
-        # the Lean function compared with the real code *is* the statement's order (executable specification):
-        # a disagreement is a failure of the property itself, not only of the tie
-        "model_is_spec": True,
-        "partial": "sortByOrder_perm holds under `anchored` (finding 17: dangling / cyclic after/before drop fields)",
-    },
-}
+sys.path.insert(0, os.path.join(ROOT, "checks"))
+from registry import REGISTRY          # noqa: E402
+
 
 def sh(cmd, **kw):
     return subprocess.run(cmd, shell=isinstance(cmd, str), capture_output=True, text=True, **kw)
 
+
 def bootstrap():
+    """deps + translator + build; returns (ok, log)"""
     os.makedirs(os.path.join(ROOT, "evidence"), exist_ok=True)
+    os.makedirs(os.path.join(ROOT, "replays"), exist_ok=True)
     with open(os.path.join(ROOT, ".bootstrap.lock"), "w") as lock:
         fcntl.flock(lock, fcntl.LOCK_EX)
         if not os.path.isdir(os.path.join(DEPS, "jsonschema")):
-            r = sh(f"/venv/bin/pip install -q --no-index --find-links /opt/veriftools/wheels --target {DEPS} jsonschema")
-            if r.returncode: print(r.stderr[-2000:]); sys.exit(2)
-        r = sh("lake build driver", cwd=LEAN)
+            r = sh(f"{PY} -m pip install -q --no-index --find-links /opt/veriftools/wheels --target {DEPS} jsonschema")
+            if r.returncode:
+                print(r.stdout[-1000:], r.stderr[-2000:]); sys.exit(2)
+        gen_log = ""
+        r = sh([PY, os.path.join(ROOT, "tools", "extract.py"), REPO, os.path.join(LEAN, "Apimodel", "Generated")])
         if r.returncode:
-            return False, r.stdout[-3000:] + r.stderr[-1000:]
-    return True, ""
+            gen_log = "translator failed: " + r.stdout[-1500:] + r.stderr[-1500:]
+        r = sh("lake build Apimodel driver", cwd=LEAN)
+        if r.returncode:
+            # the driver may still build even if a theorem module does not
+            r2 = sh("lake build driver", cwd=LEAN)
+            return r2.returncode == 0, False, gen_log + r.stdout[-4000:] + r.stderr[-1000:]
+    return True, True, gen_log
 
-def audit(prop):
-    """build the theorem modules and print the axioms of every registered theorem"""
+
+def audit(prop, lib_ok):
+    """axioms of every registered theorem (each obligation is checked in its own module build so that one
+    broken module does not hide the others)"""
     reg = REGISTRY[prop]
-    obligations = [{"theorem": t, "discharged": False, "axioms": None, "why": ""} for t in reg["theorems"]]
-    r = sh(["lake", "build"] + reg["modules"], cwd=LEAN)
-    build_ok = r.returncode == 0
-    log = r.stdout[-3000:]
-    src_flags = sh(r"grep -rnE '\bsorry\b|\badmit\b|native_decide|^axiom |implemented_by|maxHeartbeats 0' Apimodel --include=*.lean | grep -v '^\S*:\s*--' || true", cwd=LEAN).stdout.strip()
-    audit_file = os.path.join(LEAN, f".audit_{prop}.lean")
-    with open(audit_file, "w") as f:
-        f.write("".join(f"import {m}\n" for m in reg["modules"]))
-        f.write("".join(f"#print axioms {t}\n" for t in reg["theorems"]))
-    r = sh(["lake", "env", "lean", audit_file], cwd=LEAN)
-    os.remove(audit_file)
-    out = r.stdout + r.stderr
+    obligations = [{"theorem": t, "module": m, "discharged": False, "axioms": None, "why": ""} for m, t in reg["theorems"]]
+    modules = sorted({m for m, _ in reg["theorems"]})
+    log = ""
+    built = {}
+    for m in modules:
+        if lib_ok:
+            built[m] = True
+        else:
+            r = sh(["lake", "build", m], cwd=LEAN)
+            built[m] = r.returncode == 0
+            if r.returncode: log += r.stdout[-2500:] + r.stderr[-500:]
+    flags = sh(r"grep -rnE '\bsorry\b|\badmit\b|native_decide|bv_decide|^axiom |implemented_by|unsafe |maxHeartbeats 0' Apimodel --include=*.lean"
+               r" | grep -vE '^[^:]*:[0-9]+:\s*(--|/-)' || true", cwd=LEAN).stdout.strip()
+    ok_modules = [m for m in modules if built[m]]
+    out = ""
+    if ok_modules:
+        audit_file = os.path.join(LEAN, f".audit_{prop}_{os.getpid()}.lean")
+        with open(audit_file, "w") as f:
+            f.write("".join(f"import {m}\n" for m in ok_modules))
+            f.write("".join(f"#print axioms {t}\n" for m, t in reg["theorems"] if built[m]))
+        r = sh(["lake", "env", "lean", audit_file], cwd=LEAN)
+        os.remove(audit_file)
+        out = (r.stdout + r.stderr).replace("\n", " ")
     for ob in obligations:
-        m = re.search(r"'%s' depends on axioms: \[([^\]]*)\]" % re.escape(ob["theorem"]), out.replace("\n", " "))
+        if not built[ob["module"]]:
+            ob["why"] = "module does not build"; continue
+        m = re.search(r"'%s' depends on axioms: \[([^\]]*)\]" % re.escape(ob["theorem"]), out)
         m0 = re.search(r"'%s' does not depend on any axioms" % re.escape(ob["theorem"]), out)
         if m or m0:
             axs = [a.strip() for a in m.group(1).split(",")] if m else []
             ob["axioms"] = axs
             bad = [a for a in axs if a not in ALLOWED_AXIOMS]
             if bad: ob["why"] = "inadmissible axioms: " + ", ".join(bad)
+            elif flags: ob["why"] = "source audit: " + flags[:300]
             else: ob["discharged"] = True
         else:
-            ob["why"] = "theorem missing from the build" if build_ok else "module does not build"
-    return obligations, build_ok, log, src_flags
+            ob["why"] = "theorem missing from the build"
+    return obligations, log, flags
 
-def write_evidence(prop, tier, seed, t0, obligations, stats, assumptions, violations):
+
+def write_evidence(prop, tier, seed, t0, obligations, stats, violations):
     reg = REGISTRY[prop]
+    modules = sorted({m for m, _ in reg["theorems"]})
+    cov = {
+        "obligations": len(obligations), "discharged": sum(o["discharged"] for o in obligations),
+        "checker_cmd": "cd lean && lake build Apimodel && lake env lean <#print axioms of every registered theorem>" +
+                       (" && lake env leanchecker " + " ".join(modules) if tier == "thorough" else ""),
+        "trusted_base": ["Lean 4.33.0 kernel", "axioms admitted: " + ", ".join(sorted(ALLOWED_AXIOMS)),
+                         "hand-written model of the anchored code, tied to /repo by the correspondence run recorded below",
+                         "tools/extract.py (tables and cache wiring regenerated from /repo on every run)",
+                         "CPython, typing, dataclasses, and for schema properties the jsonschema package as cross-check of the Lean validators"]
+                        + reg.get("trusted_extra", []),
+        "theorems": obligations, "partial_clauses": reg.get("partial", ""),
+        "evaluations": stats.get("evaluations", 0), "distinct_nontrivial": stats.get("distinct_nontrivial", 0),
+        "rule": stats.get("rule", ""), "samples": stats.get("samples", [])[:6],
+        "histograms": stats.get("histograms", {}), "known_findings_seen": dict(stats.get("known", {})),
+        "correspondence": stats.get("correspondence", {}),
+        "in_theorem_scope": stats.get("in_scope", None),
+    }
     ev = {"property_id": prop, "tier": tier, "seed": seed, "level": "proof", "wall_s": round(time.time() - t0, 2),
-          "violations": violations,
-          "coverage": {
-              "obligations": len(obligations), "discharged": sum(o["discharged"] for o in obligations),
-              "checker_cmd": "lake build " + " ".join(reg["modules"]) + " && #print axioms (audit)" +
-                             (" && lake env leanchecker" if tier == "thorough" else ""),
-              "trusted_base": ["Lean 4.33.0 kernel", "axioms: " + ", ".join(sorted(ALLOWED_AXIOMS)),
-                               "hand-written model tied by the correspondence below", "CPython, typing, dataclasses"],
-              "theorems": obligations, "partial": reg.get("partial", ""),
-              "evaluations": stats.get("evaluations", 0), "distinct_nontrivial": stats.get("distinct_nontrivial", 0),
-              "rule": stats.get("rule", ""), "samples": stats.get("samples", []),
-              "histograms": stats.get("histograms", {}), "known_findings_seen": stats.get("known", {}),
-          },
-          "assumptions": assumptions}
+          "violations": violations, "coverage": cov,
+          "assumptions": reg.get("assumptions", []) + stats.get("assumptions", [])}
     path = os.path.join(ROOT, "evidence", f"{prop}.json")
-    with open(path, "w") as f: json.dump(ev, f, indent=1)
+    with open(path, "w") as f: json.dump(ev, f, indent=1, default=repr)
     sys.path.insert(0, DEPS)
     import jsonschema
-    jsonschema.validate(ev, json.load(open(SCHEMA)))
+    jsonschema.validate(json.load(open(path)), json.load(open(SCHEMA)))
     return path
 
+
+def case_size(c):
+    return len(json.dumps(c, default=repr))
+
+
 def main():
-    ap = argparse.ArgumentParser(); ap.add_argument("prop"); ap.add_argument("--tier", default=os.environ.get("VERIF_TIER", "quick"))
+    ap = argparse.ArgumentParser(); ap.add_argument("prop")
+    ap.add_argument("--tier", default=os.environ.get("VERIF_TIER") or "quick")
     ap.add_argument("--replay"); a = ap.parse_args()
-    prop, tier = a.prop, a.tier; seed = int(os.environ.get("VERIF_SEED", "0")); t0 = time.time()
+    prop, tier = a.prop, a.tier if a.tier in ("quick", "thorough") else "quick"
+    seed = int(os.environ.get("VERIF_SEED") or "0"); t0 = time.time()
+    if os.environ.get("PYTHONHASHSEED") is None:
+        # one PRNG state for everything, including set iteration order of the real code
+        os.environ["PYTHONHASHSEED"] = str(seed % 4294967295)
+        os.execv(sys.executable, [sys.executable] + sys.argv)
     reg = REGISTRY[prop]
-    ok, log = bootstrap()
-    sys.path.insert(0, os.path.join(ROOT, "harness")); sys.path.insert(0, REPO)
+    limit = int(os.environ.get("VERIF_TIMEOUT", {"quick": 900, "thorough": 5400}[tier]))
+    def on_alarm(*_):
+        print(f"TIMEOUT property={prop} after {limit}s (not a verdict)"); os._exit(2)
+    signal.signal(signal.SIGALRM, on_alarm); signal.alarm(limit)
+
+    driver_ok, lib_ok, blog = bootstrap()
+    os.environ["PYTHONPATH"] = REPO + os.pathsep + DEPS
+    sys.path[:0] = [os.path.join(ROOT, "harness"), REPO, DEPS]
     engine = importlib.import_module(reg["engine"])
-    if a.replay:
-        res = engine.replay(json.load(open(a.replay))); print(json.dumps(res, indent=1)); sys.exit(1 if res.get("fails") else 0)
-    obligations, build_ok, blog, flags = audit(prop) if ok else ([{"theorem": t, "discharged": False, "axioms": None,
-                                                                  "why": "driver does not build"} for t in reg["theorems"]], False, log, "")
-    broken = [o for o in obligations if not o["discharged"]] or ([{"theorem": "<source audit>", "why": flags}] if flags else [])
-    budget = {"quick": 1, "thorough": 10}[tier] * (10 if broken else 1)
     known = json.load(open(os.path.join(ROOT, "known_findings.json")))
-    stats = engine.run(seed, budget, driver_ok=ok)
-    violations = []
-    for case in stats.pop("failures"):
-        kf = next((k for k in known["findings"] if k["property"] == prop and k["status"] == "open"
-                   and engine.is_known(k["id"], case)), None)
-        if kf: stats.setdefault("known", collections.Counter())[kf["id"]] += 1
-        else: violations.append(case)
-    for k, n in stats.get("known", {}).items():
-        print(f"KNOWN-FINDING: property={prop} {k}: {next(f['what'] for f in known['findings'] if f['id'] == k)} ({n} cases this run)")
-    os.makedirs(os.path.join(ROOT, "replays"), exist_ok=True)
+    open_kfs = [k for k in known["findings"] if k["property"] == prop and k["status"] == "open"]
+    ctx = {"prop": prop, "tier": tier, "driver_ok": driver_ok, "root": ROOT, "repo": REPO, "kfs": [k["id"] for k in open_kfs]}
+    if a.replay:
+        res = engine.replay(prop, json.load(open(a.replay)), ctx)
+        print(json.dumps(res, indent=1, default=repr)); sys.exit(1 if res.get("fails") else 0)
+
+    obligations, alog, flags = audit(prop, lib_ok)
+    broken = [o for o in obligations if not o["discharged"]]
+    budget = {"quick": 1, "thorough": 10}[tier]
+
+    def explore(budget, seed):
+        stats = engine.run(prop, seed, budget, ctx)
+        viol, k_only = [], []
+        for case in stats.pop("failures"):
+            kf = next((k for k in open_kfs if engine.is_known(k["id"], case)), None)
+            if kf: stats.setdefault("known", collections.Counter())[kf["id"]] += 1
+            elif case.get("kind") == "K": k_only.append(case)
+            else: viol.append(case)
+        return stats, viol, k_only
+
+    try:
+        stats, viol, k_only = explore(budget, seed)
+    except Exception:
+        traceback.print_exc(); print(f"INTERNAL engine failure property={prop}"); sys.exit(2)
+    if (broken or k_only) and not viol:
+        # something no longer checks: search harder for an input on which the property itself fails
+        try:
+            stats2, viol, k2 = explore(budget * 6, seed + 7919)
+            stats["evaluations"] = stats.get("evaluations", 0) + stats2.get("evaluations", 0)
+            stats["distinct_nontrivial"] = stats.get("distinct_nontrivial", 0) + stats2.get("distinct_nontrivial", 0)
+            for k, n in stats2.get("known", {}).items(): stats.setdefault("known", collections.Counter())[k] += n
+            k_only += k2
+        except Exception:
+            traceback.print_exc()
+    for k, n in sorted(stats.get("known", {}).items()):
+        what = next(f["what"] for f in open_kfs if f["id"] == k)
+        print(f"KNOWN-FINDING: property={prop} {k}: {what} ({n} cases this run)")
     rc = 0
-    if not reg.get("model_is_spec"):
-        # a correspondence (K) failure alone is not a violation of the property: only P failures are replays;
-        # K failures make the tie broken, which is reported like a broken obligation after the deeper search
-        k_only = [c for c in violations if c.get("kind") == "K"]
-        violations = [c for c in violations if c.get("kind") != "K"]
-        if k_only and not violations:
-            broken = broken + [{"theorem": "<correspondence>", "why": f"{len(k_only)} model/implementation disagreements",
-                                "first": min(k_only, key=lambda c: len(json.dumps(c)))}]
-    if violations:
-        v = min(violations, key=lambda c: len(json.dumps(c)))       # smallest failing case as the replay
-        path = os.path.join(ROOT, "replays", f"{prop}_{seed}.json"); json.dump(v, open(path, "w"), indent=1)
+    if viol:
+        v = min(viol, key=case_size)
+        h = hashlib.sha1(json.dumps(v, sort_keys=True, default=repr).encode()).hexdigest()[:10]
+        path = os.path.join(ROOT, "replays", f"{prop}-{h}.json"); json.dump(v, open(path, "w"), indent=1, default=repr)
         print(f"VIOLATION property={prop} replay={path}"); rc = 1
-    elif broken:
-        path = os.path.join(ROOT, "replays", f"{prop}_{seed}_obligation.json")
-        json.dump({"broken_obligations": broken, "build_log": blog[-1500:], "searched_cases": stats["evaluations"]}, open(path, "w"), indent=1)
+    elif broken or k_only:
+        what = {"broken_obligations": broken, "build_log": (blog + alog)[-3000:], "source_audit": flags,
+                "broken_correspondence": {"disagreements": len(k_only), "smallest": min(k_only, key=case_size) if k_only else None},
+                "searched_cases": stats.get("evaluations", 0)}
+        path = os.path.join(ROOT, "replays", f"{prop}-unproved-{seed}.json"); json.dump(what, open(path, "w"), indent=1, default=repr)
         print(f"VIOLATION property={prop} replay={path} no-failing-input-found"); rc = 1
     if tier == "thorough" and not broken:
-        r = sh(["lake", "env", "leanchecker"] + reg["modules"], cwd=LEAN)
-        if r.returncode: print("leanchecker:", r.stdout[-500:], r.stderr[-500:]); sys.exit(2)
-    ev = write_evidence(prop, tier, seed, t0, obligations, stats,
-                        ["the model of sort_by_order is hand-written; tied by comparing key orders of serialize and both schemas"],
-                        len(violations))
+        modules = sorted({m for m, _ in reg["theorems"]})
+        r = sh(["lake", "env", "leanchecker"] + modules, cwd=LEAN)
+        if r.returncode:
+            print("leanchecker failed:", r.stdout[-800:], r.stderr[-800:]); sys.exit(2)
+        stats.setdefault("correspondence", {})["leanchecker"] = "ok: " + " ".join(modules)
+    ev = write_evidence(prop, tier, seed, t0, obligations, stats, len(viol))
     print(f"{prop} {tier} seed={seed}: obligations {sum(o['discharged'] for o in obligations)}/{len(obligations)}, "
-          f"{stats['evaluations']} cases, {stats['distinct_nontrivial']} distinct non-trivial, evidence {ev}, exit {rc}")
-    sys.exit(rc)
+          f"{stats.get('evaluations')} cases, {stats.get('distinct_nontrivial')} distinct non-trivial, evidence {ev}, exit {rc}")
+    sys.stdout.flush()
+    os._exit(rc)
+
 
 if __name__ == "__main__":
     main()
